@@ -36,7 +36,7 @@ func init() {
 	core.Register(&core.Property{
 		ID:   "C18",
 		Rule: "generated resources of every R4 type x element nodes of their FHIR tree x path forms {indexed, plain, first()/last(), where(field = lit), extension(url), tail/skip/take sub-slices, no-op trailing steps} x operations {add, insert, delete, replace, move} x values {right type, sibling type, other primitive type, wrong complex type, nil}; add also on primitive elements (id, extension, and the scalar proto fields value/precision/timezone that are not elements) x indexes [-1, len+1] ∪ {MinInt, MaxInt}; each call runs on a fresh clone; on success the resource must equal the result of the harness' own edit of a second clone (hence every other element unchanged); on error the deterministic bytes of the resource and of the value must be unchanged; delete of an absent element is a no-op success; Move reports ErrNotImplemented; sequences with inverse pairs return to the original. Add of Reference.reference on eight Reference forms; distinct_nontrivial = distinct (operation, path form, element class, value kind, outcome) tuples",
-		Assumptions: []string{"an error on an operation the model considers valid is not a violation (the statement constrains successes and failures, not which calls succeed); every (operation, path form) pair must have been observed to succeed at least once",
+		Assumptions: []string{"an error on an operation the model considers valid is not a violation (the statement constrains successes and failures, not which calls succeed); every (operation, path form) pair must have been observed to succeed at least once, and so must fifteen fixed operations whose target lies in, or below, one of several parents (a refusal there makes the run inconclusive, not a violation)",
 			"sibling-type values (code for an enum-bound code, integer for positiveInt, id for a reference) may be normalised by the library: on success only the frame (everything but the target) and non-emptiness of the target are checked"},
 		Run:    runC18,
 		Checks: map[string]func(*core.Env, []json.RawMessage){"patch": replayC18, "seq": replayC18Seq, "codes": replayC18Codes, "aliasing": replayC18Aliasing, "refadd": func(env *core.Env, a []json.RawMessage) { c18RefAdd(env) }, "optrange": func(env *core.Env, a []json.RawMessage) { c18OptionsAndRanges(env) }, "choice": func(env *core.Env, a []json.RawMessage) {
@@ -64,10 +64,19 @@ func init() {
 					r = append(r, "never observed: "+k)
 				}
 			}
+			for _, d := range c18MultiParentDescs {
+				if m.Cover["multi-parent-success:"+d] == 0 {
+					r = append(r, "operation across several parents never observed to succeed (it does on the pinned tree): "+d)
+				}
+			}
 			return r
 		},
 	})
 }
+
+var c18MultiParentDescs = []string{"Delete(Patient.name.given[2])", "Delete(Patient.name.given.last())", "Delete(Patient.name.given.where($this = 'c'))", "Delete(Patient.name.given[1])", "Replace(Patient.name.given[3])", "Replace(Patient.name.given.last())",
+	"Replace(Patient.name.given.where($this = 'c'))", "Insert(Patient.name.first().given, 1)", "Insert(Patient.name.take(1).given, 0)", "Insert(Patient.name.last().given, 2)", "Insert(Patient.name.skip(1).given, 0)", "Insert(Patient.name[1].given, 1)",
+	"Insert(Patient.name.where(family = 'F2').given, 0)", "Add(Patient.name.first(), given)", "Add(Patient.name.last(), given)"}
 
 type c18Case struct {
 	TN     string `json:"tn"`
@@ -944,6 +953,10 @@ func c18Fixed(env *core.Env, totality bool) {
 	}
 	defer env.In("patch", c18Case{TN: "fixed"})()
 	c18ForeignValues(env, prop)
+	c18ZeroScalars(env, prop)
+	if !totality {
+		c18MultiParent(env)
+	}
 	p := func() fhir.Resource { return gen.StdPatient() }
 	hn := &dtpb.HumanName{Family: &dtpb.String{Value: "New"}}
 	type fc struct {
@@ -1069,6 +1082,105 @@ func c18Fixed(env *core.Env, totality bool) {
 		}
 		if !c.absent && !strings.HasPrefix(c.name, "Move") && perr == nil && c.name != "Add(nil options)" {
 			env.Violatef("C18/fixed/succeeded-on-invalid-operation", "patch.%s returned nil", c.name)
+		}
+	}
+}
+
+// c18MultiParent: targets reached through a step that yields several parents (two names, each with given names), the
+// selected element lying in a parent other than the first, or the parent being picked by first()/take(1)/last()/skip(1).
+// A success must equal the hand-built expectation, an error must leave the resource as it was; that each of these
+// operations can succeed at all is an observation threshold (see Threshold), not a verdict.
+func c18MultiParent(env *core.Env) {
+	mk := func() *ppb.Patient {
+		return &ppb.Patient{Id: &dtpb.Id{Value: "m"}, Name: []*dtpb.HumanName{{Family: &dtpb.String{Value: "F1"}, Given: []*dtpb.String{{Value: "a"}, {Value: "b"}}}, {Family: &dtpb.String{Value: "F2"}, Given: []*dtpb.String{{Value: "c"}, {Value: "d"}}}}}
+	}
+	gv := func(vs ...string) []*dtpb.String {
+		var out []*dtpb.String
+		for _, v := range vs {
+			out = append(out, &dtpb.String{Value: v})
+		}
+		return out
+	}
+	x := &dtpb.String{Value: "x"}
+	type mc struct {
+		key, desc string
+		f         func(r *ppb.Patient) error
+		g0, g1    []*dtpb.String
+	}
+	cases := []mc{
+		{"delete", "Delete(Patient.name.given[2])", func(r *ppb.Patient) error { return patch.Delete(r, "Patient.name.given[2]") }, gv("a", "b"), gv("d")},
+		{"delete", "Delete(Patient.name.given.last())", func(r *ppb.Patient) error { return patch.Delete(r, "Patient.name.given.last()") }, gv("a", "b"), gv("c")},
+		{"delete", "Delete(Patient.name.given.where($this = 'c'))", func(r *ppb.Patient) error { return patch.Delete(r, "Patient.name.given.where($this = 'c')") }, gv("a", "b"), gv("d")},
+		{"delete", "Delete(Patient.name.given[1])", func(r *ppb.Patient) error { return patch.Delete(r, "Patient.name.given[1]") }, gv("a"), gv("c", "d")},
+		{"replace", "Replace(Patient.name.given[3])", func(r *ppb.Patient) error { return patch.Replace(r, "Patient.name.given[3]", x) }, gv("a", "b"), gv("c", "x")},
+		{"replace", "Replace(Patient.name.given.last())", func(r *ppb.Patient) error { return patch.Replace(r, "Patient.name.given.last()", x) }, gv("a", "b"), gv("c", "x")},
+		{"replace", "Replace(Patient.name.given.where($this = 'c'))", func(r *ppb.Patient) error { return patch.Replace(r, "Patient.name.given.where($this = 'c')", x) }, gv("a", "b"), gv("x", "d")},
+		{"insert-first", "Insert(Patient.name.first().given, 1)", func(r *ppb.Patient) error { return patch.Insert(r, "Patient.name.first().given", x, 1) }, gv("a", "x", "b"), gv("c", "d")},
+		{"insert-take", "Insert(Patient.name.take(1).given, 0)", func(r *ppb.Patient) error { return patch.Insert(r, "Patient.name.take(1).given", x, 0) }, gv("x", "a", "b"), gv("c", "d")},
+		{"insert-last", "Insert(Patient.name.last().given, 2)", func(r *ppb.Patient) error { return patch.Insert(r, "Patient.name.last().given", x, 2) }, gv("a", "b"), gv("c", "d", "x")},
+		{"insert-skip", "Insert(Patient.name.skip(1).given, 0)", func(r *ppb.Patient) error { return patch.Insert(r, "Patient.name.skip(1).given", x, 0) }, gv("a", "b"), gv("x", "c", "d")},
+		{"insert-index", "Insert(Patient.name[1].given, 1)", func(r *ppb.Patient) error { return patch.Insert(r, "Patient.name[1].given", x, 1) }, gv("a", "b"), gv("c", "x", "d")},
+		{"insert-where", "Insert(Patient.name.where(family = 'F2').given, 0)", func(r *ppb.Patient) error { return patch.Insert(r, "Patient.name.where(family = 'F2').given", x, 0) }, gv("a", "b"), gv("x", "c", "d")},
+		{"add-first", "Add(Patient.name.first(), given)", func(r *ppb.Patient) error { return patch.Add(r, "Patient.name.first()", "given", x, &patch.Options{}) }, gv("a", "b", "x"), gv("c", "d")},
+		{"add-last", "Add(Patient.name.last(), given)", func(r *ppb.Patient) error { return patch.Add(r, "Patient.name.last()", "given", x, &patch.Options{}) }, gv("a", "b"), gv("c", "d", "x")},
+	}
+	for _, c := range cases {
+		r := mk()
+		before := protoBytes(r)
+		var perr error
+		out := env.Guard("patch."+c.desc, func() { perr = c.f(r) })
+		env.Eval(1)
+		env.Case()
+		if out.Panicked || out.Dead {
+			if !out.Dead {
+				env.Violatef("C18/panic@"+out.Site+"/"+core.NormMsg(out.PanicMsg), "patch.%s panicked: %s", c.desc, out.PanicMsg)
+			}
+			continue
+		}
+		if perr != nil {
+			env.Cover("multi-parent-error:" + c.desc)
+			if protoBytes(r) != before {
+				env.Violatef("C18/multi-parent/mutated-on-error", "patch.%s returned %v but the resource changed", c.desc, perr)
+			}
+			continue
+		}
+		want := mk()
+		want.Name[0].Given, want.Name[1].Given = c.g0, c.g1
+		if !proto.Equal(r, want) {
+			env.Violatef("C18/multi-parent/wrong-result", "patch.%s on a Patient with the names {F1: a b} {F2: c d} succeeded but the resource is now %s", c.desc, trunc(jsonOf(r), 300))
+			continue
+		}
+		env.Cover("multi-parent-success:" + c.desc)
+	}
+}
+
+// c18ZeroScalars: Add on a primitive element whose proto scalars hold their zero values (false, "", the epoch, no
+// time zone, no precision), named after those scalars: an error that leaves the resource as it was, never a crash.
+func c18ZeroScalars(env *core.Env, prop string) {
+	mk := func() *ppb.Patient {
+		return &ppb.Patient{Id: &dtpb.Id{Value: "z"}, Active: &dtpb.Boolean{}, BirthDate: &dtpb.Date{}, Gender: &ppb.Patient_GenderCode{}, Name: []*dtpb.HumanName{{Family: &dtpb.String{}, Given: []*dtpb.String{{}}}},
+			MultipleBirth: &ppb.Patient_MultipleBirthX{Choice: &ppb.Patient_MultipleBirthX_Integer{Integer: &dtpb.Integer{}}}, Meta: &dtpb.Meta{LastUpdated: &dtpb.Instant{}}, Deceased: &ppb.Patient_DeceasedX{Choice: &ppb.Patient_DeceasedX_DateTime{DateTime: &dtpb.DateTime{}}}}
+	}
+	vals := []fhir.Base{&dtpb.String{Value: "x"}, &dtpb.Boolean{Value: true}, &dtpb.Integer{Value: 3}, &dtpb.Extension{Url: &dtpb.Uri{Value: "http://u"}}}
+	for _, path := range []string{"Patient.active", "Patient.birthDate", "Patient.gender", "Patient.name[0].family", "Patient.name[0].given[0]", "Patient.multipleBirth", "Patient.meta.lastUpdated", "Patient.deceased", "Patient.id"} {
+		for _, name := range []string{"value", "valueUs", "value_us", "timezone", "precision", "Value", "ValueUs"} {
+			for vi, v := range vals {
+				r := mk()
+				before := protoBytes(r)
+				var perr error
+				out := env.Guard("patch.Add zero scalar", func() { perr = patch.Add(r, path, name, v, &patch.Options{}) })
+				env.Eval(1)
+				env.Cover("add-on-zero-scalar-primitive")
+				if out.Panicked || out.Dead {
+					if !out.Dead {
+						env.Violatef(prop+"/panic@"+out.Site+"/"+core.NormMsg(out.PanicMsg), "patch.Add(%s, %q, value %d) on a Patient whose primitives hold zero values panicked: %s", path, name, vi, out.PanicMsg)
+					}
+					continue
+				}
+				if prop == "C18" && perr != nil && protoBytes(r) != before {
+					env.Violatef("C18/fixed/mutated", "patch.Add(%s, %q) returned %v but the resource changed", path, name, perr)
+				}
+			}
 		}
 	}
 }
